@@ -114,7 +114,7 @@ pub fn check_zoom_levels<Z: ZoomReader>(
             let mut points: Vec<u32> = vec![0, *size];
             let step = (crecs.len() / 6).max(1);
             for z in crecs.iter().step_by(step).chain(crecs.last().into_iter()) {
-                for p in [z.start.saturating_sub(1), z.start, z.start + 1, z.end.saturating_sub(1), z.end, z.end.saturating_add(1)] {
+                for p in [z.start.saturating_sub(1), z.start, z.start.saturating_add(1), z.end.saturating_sub(1), z.end, z.end.saturating_add(1)] {
                     points.push(p);
                 }
             }
